@@ -85,7 +85,10 @@ def srcOf (j : Json) : Except String Src := do
     | .error _ =>
       match j.getObjVal? "inject" with
       | .ok v => pure (.inject (← strOf v) (← optStr j "dflt"))
-      | .error _ => pure .selfId
+      | .error _ =>
+        match j.getObjVal? "side" with
+        | .ok _ => pure .side
+        | .error _ => pure .selfId
 
 def defOf (j : Json) : Except String CompDef := do
   let data ← (← getArr j "data").mapM (fun kv => do
